@@ -66,8 +66,22 @@ func genC05(r *Rng, tier string, idx int) *Plan {
 		}
 	}
 	p.Knobs["tcp"] = int64(r.Intn(2))
+	expireSome(r, p, g.Keys)
 	p.Dice = drawDice(r, 64)
 	return p
+}
+
+// expireSome leaves some seeded keys expired but still physically present (a deadline in the past, nothing has
+// collected them yet): commands then take the lazy-expiry paths of the keyspace functions, concurrently.
+func expireSome(r *Rng, p *Plan, keys []string) {
+	if !r.Chance(0.3) {
+		return
+	}
+	for _, k := range keys {
+		if r.Chance(0.7) {
+			p.Init = append(p.Init, Op{Args: []string{"EXPIRE", k, "-10"}})
+		}
+	}
 }
 
 // genC05Pair: one target command (every command gets its turn) against an adversary on the same key:
@@ -126,6 +140,7 @@ func genC05Pair(r *Rng, p *Plan, idx int) *Plan {
 	}
 	p.Ops = append(p.Ops, Op{C: 1, Args: adv})
 	p.Knobs["tcp"] = int64(r.Intn(2))
+	expireSome(r, p, []string{key})
 	p.Dice = drawDice(r, 48)
 	return p
 }
